@@ -19,6 +19,86 @@ let eval_stream (stream : string) (case : string) (impl : string) : verdict =
     let outs = Model.cache_run Model.cache_init rs in
     let m = String.concat "," (List.map hex_of_bytes outs) in
     { model = m; fails = (if m <> impl then [("C18", "-")] else []) }
+  | "router" ->
+    (match split_on '|' case with
+     | [regs; qs] ->
+       let meth_of s =
+         if String.length s > 0 && s.[0] = 'c' then Model.Custom (bytes_of_hex (String.sub s 1 (String.length s - 1)))
+         else Model.Std (n_of_int (int_of_string s)) in
+       let plist s = if s = "" then [] else
+           List.map (fun e -> match split_on ',' e with
+               | [m; p] -> (meth_of m, bytes_of_hex p) | _ -> failwith "bad router entry") (split_on ';' s) in
+       let table = List.mapi (fun i (m, p) -> ((m, p), n_of_int i)) (plist regs) in
+       let show r = match r with
+         | Model.Fallback -> "F"
+         | Model.Found (h, ps) ->
+           String.concat "," (string_of_int (int_of_n h) ::
+                              List.map (fun (k, v) -> hex_of_bytes k ^ "=" ^ hex_of_bytes v) ps) in
+       let queries = plist qs in
+       let ms = List.map (fun (m, p) -> show (Model.match_route table m p)) queries in
+       let model = String.concat ";" ms in
+       let fails =
+         if Model.wf_table table then begin
+           let impls = Array.of_list (split_on ';' impl) in
+           let f11 = ref false and f12 = ref false in
+           List.iteri (fun i (m, p) ->
+               let sp = show (Model.spec_route table m p) in
+               let im = if i < Array.length impls then impls.(i) else "?" in
+               if sp <> im then begin
+                 let hd x = List.hd (split_on ',' x) in
+                 if hd sp <> hd im then f11 := true else f12 := true
+               end) queries;
+           (if !f11 then [("C11", "-")] else []) @ (if !f12 then [("C12", "-")] else [])
+         end else [] in
+       { model; fails }
+     | _ -> failwith "bad router case")
+  | "headers" ->
+    let parse_op o =
+      let rest = String.sub o 1 (String.length o - 1) in
+      match o.[0] with
+      | 'A' | 'R' -> (match split_on ',' rest with
+          | [n; v] -> if o.[0] = 'A' then Model.OAdd (bytes_of_hex n, bytes_of_hex v) else Model.OReplace (bytes_of_hex n, bytes_of_hex v)
+          | _ -> failwith "bad op")
+      | 'D' -> Model.ORemove (bytes_of_hex rest)
+      | 'L' -> Model.OSetCL (if rest = "-" then None else Some (n_of_string rest))
+      | 'T' -> Model.OSetChunked
+      | 'C' -> Model.OSetClose
+      | _ -> failwith "bad op" in
+    let ops = List.map parse_op (List.filter (fun x -> x <> "") (split_on ';' case)) in
+    let b01 b = if b then "1" else "0" in
+    let cl_s = function None -> "-" | Some n -> string_of_n n in
+    let fields_s fs = "[" ^ String.concat "," (List.map (fun (k, v) -> hex_of_bytes k ^ ":" ^ hex_of_bytes v) fs) ^ "]" in
+    let probes = ["transfer-encoding"; "CONNECTION"; "x-other"; "Content-Length"] in
+    let toks_s l = "[" ^ String.concat "," (List.map hex_of_bytes l) ^ "]" in
+    (* model *)
+    let h = ref Model.new_headers in
+    let steps = List.map (fun o ->
+        h := Model.hstep !h o;
+        Printf.sprintf "cl=%s,ch=%s,cc=%s,n=%d" (cl_s !h.Model.content_length) (b01 !h.Model.chunked)
+          (b01 !h.Model.connection_close) (List.length !h.Model.stored)) ops in
+    let hf = !h in
+    let gs = List.map (fun p ->
+        let pb = bytes_of_string p in
+        Printf.sprintf "|g:%s=%s/%s" (hex_of_bytes pb)
+          (match Model.get hf pb with Some v -> hex_of_bytes v | None -> "none") (fields_s (Model.get_all hf pb))) probes in
+    let model = String.concat ";" steps ^ "|" ^ fields_s hf.Model.stored ^ String.concat "" gs
+                ^ "|te=" ^ toks_s (Model.token_values hf (bytes_of_string "transfer-encoding"))
+                ^ "|cv=" ^ toks_s (Model.token_values hf (bytes_of_string "connection")) in
+    (* spec, evaluated independently of the model: history -> stored fields -> fresh evaluation *)
+    let st = ref [] and hist = ref [] in
+    let ssteps = List.map (fun o ->
+        st := Model.store_step !st o; hist := !hist @ [o];
+        Printf.sprintf "cl=%s,ch=%s,cc=%s,n=%d" (cl_s (Model.spec_cl !hist)) (b01 (Model.eval_chunked !st))
+          (b01 (Model.eval_close !st)) (List.length !st)) ops in
+    let sf = !st in
+    let sgs = List.map (fun p ->
+        let pb = bytes_of_string p in
+        Printf.sprintf "|g:%s=%s/%s" (hex_of_bytes pb)
+          (match Model.lookup_last sf pb with Some v -> hex_of_bytes v | None -> "none") (fields_s (Model.lookup_all sf pb))) probes in
+    let tv name = List.concat_map (fun (_, v) -> Model.tokens v) (Model.lookup_all sf (bytes_of_string name)) in
+    let spec = String.concat ";" ssteps ^ "|" ^ fields_s sf ^ String.concat "" sgs
+               ^ "|te=" ^ toks_s (tv "transfer-encoding") ^ "|cv=" ^ toks_s (tv "connection") in
+    { model; fails = (if spec <> impl then [("C19", "-")] else []) }
   | s -> failwith ("unknown stream " ^ s)
 
 let () =
